@@ -327,18 +327,19 @@ theorem mstep_of_nopush (now : Time) (d : Dev) (a : Action) (o : Oracle) (h : pu
   unfold mstep
   simp only [h, Bool.false_eq_true, ↓reduceIte]
 
-theorem topDepth_le (R : Bool) (dp : List Plug) (d : Dev) (a : Action) (hinv : Inv R dp d a) : topDepth a ≤ 64 := by
+/-- the fuel `onRun` gives the `do … while` covers every push the statement the action stands at can cause -/
+theorem topDepth_le (a : Action) : topDepth a ≤ loopBound a := by
+  unfold loopBound
   cases hex : a.exec with
   | nil => simp [topDepth, hex]
   | cons e rest =>
-    have hok := hinv.ok
-    rw [hex] at hok
-    obtain ⟨⟨_, hg, hpos⟩, _, _⟩ := (stackOK_cons R e rest).mp hok
-    obtain ⟨s, hcur⟩ := getElem?_some_of_lt hpos
-    rw [topDepth_of a e rest s hex hcur]
-    simp only [goodBlock, Bool.and_eq_true, decide_eq_true_eq] at hg
-    have := depthB_getElem e.block e.pos s hcur
-    omega
+    rw [topCtx_of_exec a e rest hex]
+    cases hcur : e.block[e.pos]? with
+    | none => simp [topDepth, hex, hcur]
+    | some s =>
+      rw [topDepth_of a e rest s hex hcur]
+      have := depthB_getElem e.block e.pos s hcur
+      omega
 
 theorem wake_none_eq (d : Dev) (h : d.wake = none) : { d with wake := none } = d := by
   cases d; simp_all
@@ -369,7 +370,7 @@ theorem onRun_refines_k (R : Bool) (dp : List Plug) (fuelk : Nat) (rest : List A
     ∃ N fuel', onRun (processActionF fuelk) rest c a o out tmo (timeLeft c a) =
       headResult rest c tmo (timeLeft c a) fuel' (mrun c.env.now N c.dev a o out) := by
   obtain ⟨j, a1, h1, h2, h3, h4, h5, h6, h7, h8⟩ :=
-    innerLoop_trip R dp c.env.now 64 c.dev a o [] h.inv h.ne (topDepth_le R dp c.dev a h.inv)
+    innerLoop_trip R dp c.env.now (loopBound a) c.dev a o [] h.inv h.ne (topDepth_le a)
   have hm := mstep_of_nopush c.env.now c.dev a1 o h7
   have hkeep := (mstep_sim R dp c.env.now c.dev a1 o h3 h2.ranged h2.plugs h2.ok h2.err).2
   have hfrm := mstep_frame c.env.now c.dev a1 o
